@@ -181,6 +181,17 @@ theorem C47_shut_is_final (s : St) (hs : s.shut = true) (toB : Bool) (n : Nat) :
     step s (.rd toB n) = none ∧ step s (.wr toB) = none ∧ step s .flushOk = none := by
   cases toB <;> simp [step, St.live, hs]
 
+/-- **io.Writer contract of `bfe_tls.Conn.Write`** (model): for every protocol version, cipher kind and length the
+    returned count is the length of the buffer — the 1/n-1 split contributes 1 + (n-1), the fragment loop over
+    `maxPlaintext` sums to its argument.  io.Copy relies on this (a smaller count with a nil error is ErrShortWrite and
+    ends the relay); the harness checks the real `Conn.Write` against it for TLS 1.0/1.1 CBC and TLS 1.2 CBC/AEAD. -/
+theorem C47_tls_write_count (tls10OrOlder cbc : Bool) (n : Nat) : writeCount tls10OrOlder cbc n = n := by
+  unfold writeCount writeRecordCount
+  split
+  · rename_i h
+    rw [frags_sum _ _ (by omega), frags_sum _ _ (by omega)]; omega
+  · exact frags_sum _ _ (by omega)
+
 /-! non-vacuity: pipelined data, chunked reads, a partial write failure, a read error with data, a client close -/
 example :
     let s := reachWS [1, 2] [9]
@@ -196,5 +207,7 @@ example :
 example :
     let s := reachWS [1, 2, 3] [] [.flushFail 1, .shutdown]
     s.c2b.out = [1] ∧ s.stage = 3 ∧ s.shut = true := by decide
+
+example : frags 40001 40000 = [16384, 16384, 7232] := by decide
 
 end BfeVerif.C47
